@@ -79,6 +79,22 @@ func (w *World) kbUpdate(o *Obs) {
 		}
 	}
 
+	for _, pid := range sortedRowKeys(o.RowsAfter) {
+		before, after := o.RowsBefore[pid], o.RowsAfter[pid]
+		if before == nil {
+			continue
+		}
+		a := w.acctByPID(pid)
+		if a < 0 {
+			continue
+		}
+		if before.ConfirmSelector != after.ConfirmSelector && after.ConfirmSelector != "" {
+			w.supersede("confirm", a, -1, "superseded")
+		}
+		if before.RecoverSelector != after.RecoverSelector && after.RecoverSelector != "" {
+			w.supersede("recover", a, -1, "superseded")
+		}
+	}
 	for _, m := range o.Mails {
 		if m.Token == "" || len(m.To) == 0 {
 			continue
